@@ -169,12 +169,46 @@ pub fn check(case: &SdCase, mask: u32) -> Option<String> {
     None
 }
 
+/// two distinct system-data types that are spelled alike (same-named local items in two blocks of one function, as a
+/// macro used twice produces): what the StaticAccessor of the second reports must be the second's own lists
+pub fn same_spelling() -> Option<String> {
+    use shred::{Accessor, StaticAccessor, SystemData, Write};
+    let first = {
+        #[derive(Default)]
+        struct Counter(#[allow(dead_code)] u64);
+        type D<'a> = (Write<'a, Counter>,);
+        let a = <StaticAccessor<D> as Accessor>::try_new().unwrap();
+        (a.reads(), a.writes(), <D as SystemData>::reads(), <D as SystemData>::writes())
+    };
+    let second = {
+        #[derive(Default)]
+        struct Counter(#[allow(dead_code)] u32);
+        type D<'a> = (Write<'a, Counter>,);
+        let a = <StaticAccessor<D> as Accessor>::try_new().unwrap();
+        (a.reads(), a.writes(), <D as SystemData>::reads(), <D as SystemData>::writes())
+    };
+    for (which, x) in [("first", &first), ("second", &second)] {
+        if set_of(&x.0) != set_of(&x.2) || set_of(&x.1) != set_of(&x.3) {
+            return Some(format!(
+                "same-spelling/{}: of two distinct system-data types spelled alike, the StaticAccessor of the {} reports reads {:?} / writes {:?} but its type declares reads {:?} / writes {:?}",
+                which, which, x.0, x.1, x.2, x.3
+            ));
+        }
+    }
+    None
+}
+
 pub fn n_cases() -> usize {
     sd_gen::cases().len()
 }
 
 /// explores case k of the family with a seeded presence mask; (name, mask, failure)
 pub fn explore(k: usize, rng: &mut Rng) -> (String, u32, Option<String>) {
+    if k == 0 {
+        if let Some(f) = same_spelling() {
+            return ("same-spelling".to_string(), 0, Some(f));
+        }
+    }
     let cases = sd_gen::cases();
     let c = &cases[k % cases.len()];
     let mask = match rng.below(4) {
@@ -186,6 +220,9 @@ pub fn explore(k: usize, rng: &mut Rng) -> (String, u32, Option<String>) {
 }
 
 pub fn replay(name: &str, mask: u32) -> Option<String> {
+    if name == "same-spelling" {
+        return same_spelling();
+    }
     let cases = sd_gen::cases();
     cases.iter().find(|c| c.name == name).and_then(|c| check(c, mask))
 }
